@@ -1,12 +1,20 @@
 #!/bin/bash
-# tools/verify_seed.sh <worktree-with-change-applied>  -> <worktree>/verify.txt
-# Confirms a seeded change independently: demo fails with it, passes without it, test suite passes with it.
-W="$1"; cd "$W" || exit 2
-OUT="$W/verify.txt"; : > "$OUT"
-run_demo() { PYTHONPATH="$W" PYTHONHASHSEED=0 NUMBA_DISABLE_JIT=1 timeout 900 /venv/bin/python demo_break.py > "$W/.demo_out.txt" 2>&1; echo $?; }
-echo "demo with change: exit $(run_demo)" >> "$OUT"; tail -3 "$W/.demo_out.txt" | grep -v conda >> "$OUT"
-git stash -q -- tsdate
-echo "demo without change: exit $(run_demo)" >> "$OUT"; tail -2 "$W/.demo_out.txt" | grep -v conda >> "$OUT"
-git stash pop -q
+# tools/verify_seed.sh <seeded-dir-name>   -> seeded/<name>/verify.txt
+# Independent confirmation of a seeded change, in a fresh private worktree of /repo's HEAD
+# (no git stash: the stash is shared by all worktrees of a repository):
+#   demo on the unchanged source must pass, demo with the patch must fail, and the full
+#   unedited test suite must still pass with the patch.
+NAME="$1"; S="/verif/seeded/$NAME"; W="/tmp/verify_$NAME"
+[ -f "$S/patch.diff" ] || { echo "no such seeded change: $NAME"; exit 2; }
+git -C /repo worktree remove --force "$W" >/dev/null 2>&1
+git -C /repo worktree add --detach "$W" >/dev/null 2>&1 || exit 2
+cd "$W" || exit 2
+cp "$S/demo_break.py" "$W/demo_break.py"
+OUT="$S/verify.txt"; : > "$OUT"
+echo "verified at /repo commit $(git -C /repo rev-parse --short HEAD) on $(date -u +%FT%TZ)" >> "$OUT"
+run_demo() { PYTHONPATH="$W" PYTHONHASHSEED=0 NUMBA_DISABLE_JIT=1 timeout 1800 /venv/bin/python demo_break.py > "$W/.demo_out.txt" 2>&1; echo $?; }
+echo "demo without change: exit $(run_demo)" >> "$OUT"; grep -v conda "$W/.demo_out.txt" | tail -2 | cut -c1-300 >> "$OUT"
+if git apply "$S/patch.diff"; then echo "patch applies cleanly" >> "$OUT"; else echo "PATCH DOES NOT APPLY" >> "$OUT"; fi
+echo "demo with change: exit $(run_demo)" >> "$OUT"; grep -v conda "$W/.demo_out.txt" | tail -3 | cut -c1-300 >> "$OUT"
 echo "suite with change: $(PYTHONPATH="$W" timeout 3000 /venv/bin/python -m pytest -q -p no:cacheprovider --timeout=900 2>&1 | grep -E 'passed|failed|error' | tail -1)" >> "$OUT"
-git diff --stat -- tsdate | tail -1 >> "$OUT"
+cd /; git -C /repo worktree remove --force "$W" >/dev/null 2>&1
